@@ -112,6 +112,9 @@ func runConc(seed int64, nclients, nops int, size uint64, out string, shape stri
 			case 4:
 				return Op{Id: id, Proc: "getattr", H: fl}
 			}
+			if rg.Intn(2) == 0 {
+				return Op{Id: id, Proc: "readdirplus", H: d, Cookie: 0, Dircount: 1 << 20, Maxcount: 1 << 20}
+			}
 			return Op{Id: id, Proc: "commit", H: fl}
 		}
 		if shape == "xrename" { // cross-directory renames over existing targets, files only
@@ -139,6 +142,9 @@ func runConc(seed int64, nclients, nops int, size uint64, out string, shape stri
 		case 7:
 			return Op{Id: id, Proc: "rmdir", H: d, Name: n}
 		case 8:
+			if rg.Intn(2) == 0 {
+				return Op{Id: id, Proc: "readdirplus", H: d, Cookie: 0, Dircount: 1 << 20, Maxcount: 1 << 20}
+			}
 			return Op{Id: id, Proc: "readdir", H: d, Cookie: 0, Count: 1 << 20}
 		case 9:
 			k := uint64(rg.Intn(2000))
